@@ -37,6 +37,7 @@ FIXED = [
  ("C19", "fix: a right tag delimiter containing regexp metacharacters", "a right tag delimiter such as *) made the scanner panic in regexp.MustCompile"),
  ("C01", "fix: indexing a map with an unhashable key yields nil", "{{ m[k] }} with an interface-keyed map and k = [1]any{[]int{1}} panicked with 'hash of unhashable type'"),
  ("C18", "fix: printing a map shows the values of nested Drops and pointers", "{{ m }} printed Drop entries as Go structs ({x}) and pointer entries as memory addresses (0xc000...), so output depended on representation and memory layout (also C02)"),
+ ("C18", "fix: an array or map converted to text shows the values of nested Drops", "{{ pair | downcase | size }} (string filter applied to an array holding a Drop) depended on the Go representation: the Drop was spelled as its wrapper struct"),
  ("C01", "fix: property access on a map whose keys are not strings", "{{ m.foo }} / {{ m.size }} on a map[int]string panicked in reflect.Value.MapIndex"),
 ]
 KNOWN = [
